@@ -348,8 +348,23 @@ type %[1]sOut struct {
 	N    %[1]sNest
 	B    bool
 	Keep string
+	Num  %[1]sB
 %[2]s}
+type %[1]sB struct {
+	Stamp string
+}
 `, p, extra)
+	// a field fed by a custom function that FAILS ON THE ZERO VALUE of its source: under a zero guard it must not be called
+	withFn := r.Chance(50)
+	fnFallible := r.Chance(70)
+	if withFn {
+		if fnFallible {
+			f.Custom = fmt.Sprintf("func Atoi%[1]s(s string) (%[1]sB, error) {\n\tif rt.Fails(%[2]q, s) {\n\t\treturn %[1]sB{}, rt.Boom(%[2]q)\n\t}\n\treturn %[1]sB{Stamp: rt.Stamp(%[2]q, s)}, nil\n}\n\n", p, "Atoi"+p)
+			f.FailOn = append(f.FailOn, [2]string{"Atoi" + p, ""})
+		} else {
+			f.Custom = fmt.Sprintf("func Atoi%[1]s(s string) %[1]sB {\n\treturn %[1]sB{Stamp: rt.Stamp(%[2]q, s)}\n}\n\n", p, "Atoi"+p)
+		}
+	}
 	var b strings.Builder
 	b.WriteString("// goverter:converter\n")
 	flags := []string{"update:ignoreZeroValueField", "update:ignoreZeroValueField:basic", "update:ignoreZeroValueField:struct", "update:ignoreZeroValueField:nillable", "skipCopySameType"}
@@ -373,6 +388,11 @@ type %[1]sOut struct {
 	n := 1 + r.Intn(3)
 	for i := 0; i < n; i++ {
 		b.WriteString("\t// goverter:update target\n\t// goverter:ignore Keep\n")
+		if withFn {
+			b.WriteString("\t// goverter:map W Num | Atoi" + p + "\n")
+		} else {
+			b.WriteString("\t// goverter:ignore Num\n")
+		}
 		for _, fl := range flags {
 			if r.Chance(20) {
 				b.WriteString("\t// goverter:" + fl + rng.Pick(r, []string{"", " yes", " no"}) + "\n")
@@ -380,6 +400,9 @@ type %[1]sOut struct {
 		}
 		src := rng.Pick(r, []string{p + "In", "*" + p + "In"})
 		res := rng.Pick(r, []string{"", " error"})
+		if withFn && fnFallible && r.Chance(85) {
+			res = " error"
+		}
 		if r.Bool() {
 			b.WriteString(fmt.Sprintf("\tUp%d(source %s, target *%sOut)%s\n", i, src, p, res))
 		} else {
@@ -563,6 +586,13 @@ func famEnum(r *rng.R, id int) *famOut {
 	f.TypeImports = []string{fmt.Sprintf("%q", "MODULE/"+qa), fmt.Sprintf("%q", "MODULE/"+qb)}
 	f.ConvAnchors = []string{fmt.Sprintf("var _ = %s.One", qa), fmt.Sprintf("var _ = %s.One", qb)}
 	sb.WriteString(fmt.Sprintf("type %[1]sWa struct {\n\tE %[2]s.Kind\n}\ntype %[1]sWaT struct {\n\tE %[3]s.Kind\n}\ntype %[1]sWb struct {\n\tE %[2]s.Kind\n\tL []%[2]s.Kind\n}\ntype %[1]sWbT struct {\n\tE %[3]s.Kind\n\tL []%[3]s.Kind\n}\n", p, qa, qb))
+	// an enum with an UNEXPORTED member, converted by a variables block (output into the declaring package, where the
+	// member can be named): it gets its case like every other member
+	if r.Chance(45) {
+		sb.WriteString(fmt.Sprintf("type %[1]sLv %[2]s\n\nconst (\n\t%[1]sLvLow %[1]sLv = %[3]s\n\t%[1]sLvHigh %[1]sLv = %[4]s\n\t%[5]sLvDebug %[1]sLv = %[6]s\n)\n\n", p, under, lit(41), lit(42), strings.ToLower(p), lit(49)))
+		sb.WriteString(fmt.Sprintf("type %[1]sTv %[2]s\n\nconst (\n\t%[1]sTvLow %[1]sTv = %[3]s\n\t%[1]sTvHigh %[1]sTv = %[4]s\n\t%[1]sTvDebug %[1]sTv = %[5]s\n\t%[1]sTvNone %[1]sTv = %[6]s\n)\n\n", p, under, lit(51), lit(52), lit(59), lit(50)))
+		f.Pkgs["p/vars_"+strings.ToLower(p)+".go"] = fmt.Sprintf("package p\n\n// goverter:variables\n// goverter:enum:unknown %[1]sTvNone\nvar (\n\t// goverter:enum:transform regex (?i)%[1]sLv(\\w+) %[1]sTv$1\n\tConvLv%[1]s func(source %[1]sLv) %[1]sTv\n)\n", p)
+	}
 	f.Types = sb.String()
 	var b strings.Builder
 	b.WriteString("// goverter:converter\n")
